@@ -5,6 +5,7 @@
 //  file LICENSE_1_0.txt or copy at http://www.boost.org/LICENSE_1_0.txt)
 
 #include <pika/threading_base/detail/global_activity_count.hpp>
+#include <pika/config/verif_hooks.hpp>
 
 #include <atomic>
 #include <cstddef>
@@ -14,11 +15,13 @@ namespace pika::threads::detail {
 
     void increment_global_activity_count()
     {
+        PIKA_VERIF_POINT(::pika::verif::gac_inc);
         global_activity_count.fetch_add(1, std::memory_order_acquire);
     }
 
     void decrement_global_activity_count()
     {
+        PIKA_VERIF_POINT(::pika::verif::gac_dec);
         global_activity_count.fetch_sub(1, std::memory_order_release);
     }
 
